@@ -210,4 +210,36 @@ pub mod vx_export {
         }
         Ok((member, res))
     }
+
+    /// C15: the bulk versions query inside a transaction vs. the same query after commit.
+    /// db holds (user, epoch e_db, version v_db, "A"); the transaction holds (user, epoch e_t, version v_t, "B").
+    /// flag_code: 0 MaxEpoch, 1 MinEpoch, 2 LeqEpoch(100), 3 SpecificEpoch(e_t), 4 SpecificVersion(v_t).
+    /// Returns ((version, value) inside the transaction, (version, value) after commit), None = no entry.
+    pub async fn c15_bulk_versions(e_db: u64, v_db: u64, e_t: u64, v_t: u64, flag_code: u8)
+        -> Result<(Option<(u64, Vec<u8>)>, Option<(u64, Vec<u8>)>), AkdError> {
+        use crate::storage::types::{ValueState, ValueStateRetrievalFlag};
+        let db = AsyncInMemoryDatabase::new();
+        let m = StorageManager::new_no_cache(db.clone());
+        let user = AkdLabel::from("u");
+        let st = |e: u64, v: u64, val: &str| DbRecord::ValueState(ValueState {
+            value: AkdValue(val.as_bytes().to_vec()), version: v, label: NodeLabel::new([1u8; 32], 256), epoch: e, username: user.clone() });
+        m.set(st(e_db, v_db, "A")).await.map_err(AkdError::Storage)?;
+        if !m.begin_transaction() { return Err(AkdError::TestErr("no txn".to_string())); }
+        m.set(st(e_t, v_t, "B")).await.map_err(AkdError::Storage)?;
+        m.set(DbRecord::Azks(Azks { latest_epoch: e_t.max(e_db), num_nodes: 1 })).await.map_err(AkdError::Storage)?;
+        let flag = match flag_code {
+            0 => ValueStateRetrievalFlag::MaxEpoch,
+            1 => ValueStateRetrievalFlag::MinEpoch,
+            2 => ValueStateRetrievalFlag::LeqEpoch(100),
+            3 => ValueStateRetrievalFlag::SpecificEpoch(e_t),
+            _ => ValueStateRetrievalFlag::SpecificVersion(v_t),
+        };
+        let keys = vec![user.clone()];
+        let inside = m.get_user_state_versions(&keys, flag).await.map_err(AkdError::Storage)?;
+        let a = inside.get(&user).map(|(v, val)| (*v, val.0.clone()));
+        m.commit_transaction().await.map_err(AkdError::Storage)?;
+        let after = m.get_user_state_versions(&keys, flag).await.map_err(AkdError::Storage)?;
+        let b = after.get(&user).map(|(v, val)| (*v, val.0.clone()));
+        Ok((a, b))
+    }
 }
